@@ -65,14 +65,14 @@ PROPS = {
         title='STARK proofs are accepted exactly for traces that satisfy the constraints',
         design_ref='DESIGN.md section 4 / C09',
         bounded=[('starky', ['c09_', 'c04_'])],
-        vspecs=['contracts/C09/constraint_consumer.vspec', 'contracts/C09/stark_degree.vspec', 'contracts/C09/lagrange_ends.vspec', 'contracts/C18/stark_shape.vspec'],
+        vspecs=['contracts/C09/constraint_consumer.vspec', 'contracts/C09/stark_degree.vspec', 'contracts/C09/lagrange_ends.vspec', 'contracts/C09/stark_fri_instance.vspec', 'contracts/C18/stark_shape.vspec'],
         level_text='Unbounded deductive proof (Verus/Z3) that ConstraintConsumer accumulates acc_i*alpha_i + c*filter with filter = 1, z_last, L_first, L_last for '
                    'constraint / constraint_transition / constraint_first_row / constraint_last_row respectively (a swapped or missing filter fails the '
                    'postcondition); Stark::quotient_degree_factor is 0 for degree 0, 1 for degrees 1 and 2 and degree-1 above (a STARK with constraints always gets '
                    'a quotient wide enough for its declared degree) and num_quotient_polys is that times num_challenges; eval_l_0_and_l_last returns '
                    '(x^n - 1)/(n(x - 1)) and (x^n - 1)/(n(gx - 1)), the filters of the first-row and last-row constraints; validate_proof_shape returns Ok only for proofs whose '
                    'quotient commitment AND quotient openings are present exactly when the STARK has quotient polynomials, in the declared number (the conditions whose absence were F8/F9), with '
-                   'trace/next openings of COLUMNS values and PUBLIC_INPUTS public inputs. The rest of the STARK verifier and the prover '
+                   'trace/next openings of COLUMNS values and PUBLIC_INPUTS public inputs; Stark::fri_instance lists one oracle per commitment in the order the verifier lists the caps (trace, auxiliary iff lookups / CTLs, quotient iff there are quotient polynomials) and opens EVERY committed polynomial at zeta, the trace and auxiliary ones also at g*zeta, and the cross-table-lookup Z polynomials at 1. The rest of the STARK verifier and the prover '
                    '(iterator pipelines) are covered by a bounded stand-in only.',
         level_note='Trusted: Verus+Z3; abstract ring for packed fields; lane-wise scalar multiplication uninterpreted. verify_stark_proof_with_challenges, '
                    'compute_quotient_polys, eval_vanishing_poly, get_challenges: bounded harness only (flat_map/chunks/Option plumbing outside the Verus subset): '
@@ -156,7 +156,7 @@ PROPS = {
         title='Accepted proofs are bound to each of their elements and to their circuit',
         design_ref='DESIGN.md section 4 / C03',
         bounded=[('plonky2', ['c03_', 'c04_'])],
-        vspecs=['contracts/C03/plonk_verifier.vspec', 'contracts/C02/vanishing_poly.vspec', 'contracts/C05/fri_verifier.vspec', 'contracts/C18/fri_shape.vspec', 'contracts/C12/merkle_verify.vspec',
+        vspecs=['contracts/C03/plonk_verifier.vspec', 'contracts/C03/plonk_fri_instance.vspec', 'contracts/C02/vanishing_poly.vspec', 'contracts/C05/fri_verifier.vspec', 'contracts/C18/fri_shape.vspec', 'contracts/C12/merkle_verify.vspec',
                 'contracts/C04/transcript.vspec', 'contracts/C04/challenger.vspec'],
         level_text='Unbounded deductive proof (Verus/Z3) of the acceptance skeleton of the real verifier code: verify() returns Ok only if shape validation '
                    'pinned every vector length to the circuit, the vanishing identity held for EVERY challenge index on the proof\'s own openings, '
@@ -164,7 +164,8 @@ PROPS = {
                    'proof was verified (every query round, every Merkle path, every fold, final polynomial, PoW, round count) against the caps '
                    '[verifier_data.constants_sigmas_cap, wires_cap, zs_cap, quotient_cap] in that order. A verifier that stops checking one of these '
                    'fails a named postcondition. The vanishing expression itself (eval_vanishing_poly) is the alpha-combination of the L_0 terms, the partial-product checks, the lookup terms and the '
-                   'gate constraints, each for every challenge index on its own slice of the openings (unit vanishing_poly, shared with C02).',
+                   'gate constraints, each for every challenge index on its own slice of the openings (unit vanishing_poly, shared with C02). get_fri_instance and its helpers (unit plonk_fri_instance): four oracles in the order of the caps, '
+                   'EVERY polynomial of every commitment opened at zeta, the Z and all lookup polynomials also at g*zeta.',
         level_note='Trusted: Verus+Z3; algebra callees as uninterpreted functions (T10); get_challenges proved against the transcript specification (C04 units, same run); circuit data '
                    'satisfy common_ok. The step from "every element is read by a check or absorbed" to "every change is rejected" is the '
                    'soundness/collision argument (outside the family). Compressed proofs (decompress path, HashMap code) not covered.',
